@@ -84,15 +84,35 @@ fn other_sinks(script: &[u32], st: &mut Stats, write: &dyn Fn(&mut dyn std::io::
 /// A write that fails half-way (the sink returns an error at its k-th call) must leave nothing
 /// behind: whatever is written next on this thread has to come out as if nothing had happened.
 /// Returns false if the failing sink did not make the write fail (nothing to learn then).
-fn failed_write_first(k: usize, st: &mut Stats, write: &dyn Fn(&mut dyn std::io::Write) -> std::io::Result<()>) -> bool {
+fn failed_write_first(k: usize, st: &mut Stats, write: &dyn Fn(&mut dyn std::io::Write) -> std::io::Result<()>) -> FailedFirst {
     let kind = [std::io::ErrorKind::BrokenPipe, std::io::ErrorKind::WriteZero, std::io::ErrorKind::Other, std::io::ErrorKind::WouldBlock][k % 4];
     let mut bad = SimSink::new(&[3], Some((k, kind)));
     let r = vcore::catch(|| write(&mut bad));
     let failed = matches!(r, Ok(Err(_)));
     if failed {
         st.count("fault.sink_error", 1);
+        return FailedFirst::Failed;
     }
-    failed
+    if matches!(r, Ok(Ok(()))) && bad.faults > 0 {
+        // the sink did fail, the write function reported success: what it claims to have written
+        // must be there ("writing ... produces text that parses back" - a success without the text is
+        // the same broken promise as a wrong text)
+        let mut plain = SimSink::new(&[], None);
+        if let Ok(Ok(())) = vcore::catch(|| write(&mut plain)) {
+            if plain.out != bad.out {
+                st.count("fault.sink_error", 1);
+                return FailedFirst::Swallowed(format!("the sink failed with {:?} at its write call no. {}, the write function returned Ok(()), but the sink holds {:?} instead of {:?}", kind, k, show(&bad.out), show(&plain.out)));
+            }
+        }
+    }
+    FailedFirst::NotFailed
+}
+
+enum FailedFirst {
+    Failed,
+    NotFailed,
+    /// the sink returned an error, the write function returned Ok(()) and the output is incomplete
+    Swallowed(String),
 }
 
 fn sink_stats(s: &SimSink, st: &mut Stats) {
@@ -188,7 +208,7 @@ fn write_c10<W: std::io::Write>(r: &WRec, e: u8, w: &mut W) -> std::io::Result<(
                 match e {
                     14 | 15 => b"\r\n",
                     // the pattern of terminators is a function of the record
-                    16 | 17 => if (r.width + r.head.len() + k * (1 + r.cuts.len())) % 3 == 1 { b"\r\n" } else { b"\n" },
+                    16 | 17 => if (r.width % 3 + r.head.len() + k * (1 + r.cuts.len())) % 3 == 1 { b"\r\n" } else { b"\n" },
                     _ => b"\n",
                 }
             };
@@ -269,11 +289,18 @@ pub fn gen_c10(rng: &Rng, tier: Tier) -> C10Scn {
             }
             _ => rng.range(1, 20),
         };
+        // "all wrap widths >= 1": now and then one at the far end of usize (callers pass usize::MAX
+        // to say "do not wrap")
+        let width = if rng.chance(1, 40) {
+            *rng.pick(&[usize::MAX, usize::MAX - 1, usize::MAX - seq.len().saturating_sub(1), usize::MAX - seq.len(), usize::MAX / 2 + 1, 1usize << 32])
+        } else {
+            width
+        };
         let mut cuts: Vec<usize> = vec![];
         for _ in 0..rng.small(5) {
             let c = if rng.chance(1, 3) && width > 0 {
                 // exactly at a line end
-                (width * rng.range(0, 4)).min(seq.len())
+                width.saturating_mul(rng.range(0, 4)).min(seq.len())
             } else {
                 rng.range(0, seq.len())
             };
@@ -282,7 +309,7 @@ pub fn gen_c10(rng: &Rng, tier: Tier) -> C10Scn {
                 cuts.push(c); // empty chunk
             }
         }
-        if rng.chance(1, 8) && width > 0 && seq.len() / width < 200 {
+        if rng.chance(1, 8) && width > 0 && width < (1 << 40) && seq.len() / width < 200 {
             // a source that is already laid out at the requested width (or at width +- 1)
             let w = (width as i64 + *rng.pick(&[0i64, 0, 0, 1, -1])).max(1) as usize;
             cuts = (1..=seq.len() / w).map(|k| k * w).collect();
@@ -310,8 +337,10 @@ pub fn run_c10(s: &C10Scn, st: &mut Stats) -> RunResult {
             // (one record in three: the same record, or the previous one, into a sink that fails)
             let rr = if i > 0 && s.sink_script.len() % 2 == 0 { &s.recs[i - 1] } else { r };
             let ee = rr.entry % C10_ENTRIES.len() as u8;
-            if failed_write_first(s.sink_script.iter().map(|x| *x as usize).sum::<usize>() % 7, st, &|w: &mut dyn std::io::Write| { let mut w = w; write_c10(rr, ee, &mut w) }) {
-                st.probe("probe.write_after_failed_write");
+            match failed_write_first(s.sink_script.iter().map(|x| *x as usize).sum::<usize>() % 7, st, &|w: &mut dyn std::io::Write| { let mut w = w; write_c10(rr, ee, &mut w) }) {
+                FailedFirst::Failed => st.probe("probe.write_after_failed_write"),
+                FailedFirst::Swallowed(d) => viol("C10.sink_error_swallowed", format!("record via {}: {}", C10_ENTRIES[ee as usize], d)),
+                FailedFirst::NotFailed => {}
             }
         }
         let mut plain = SimSink::new(&[], None);
@@ -625,8 +654,10 @@ pub fn run_c11(s: &C11Scn, st: &mut Stats) -> RunResult {
             if (script.len() + i) % 3 == 0 {
                 let rr = if i > 0 && script.len() % 2 == 0 { &recs[i - 1] } else { r };
                 let ee = rr.entry % 4;
-                if failed_write_first(script.iter().map(|x| *x as usize).sum::<usize>() % 7, st, &|w: &mut dyn std::io::Write| { let mut w = w; write_c11(rr, ee, &mut w) }) {
-                    st.probe("probe.write_after_failed_write");
+                match failed_write_first(script.iter().map(|x| *x as usize).sum::<usize>() % 7, st, &|w: &mut dyn std::io::Write| { let mut w = w; write_c11(rr, ee, &mut w) }) {
+                    FailedFirst::Failed => st.probe("probe.write_after_failed_write"),
+                    FailedFirst::Swallowed(d) => v.push(Violation::new("C11.sink_error_swallowed", format!("record via {}: {}", C11_ENTRIES[ee as usize], d))),
+                    FailedFirst::NotFailed => {}
                 }
             }
             let mut plain = SimSink::new(&[], None);
